@@ -44,6 +44,28 @@ def popL (l : List Entry) : Res (Option Pkt × List Entry) :=
   clear := fun _ => .ok []
 
 
+/-- the list-level queue with a cached entry count, so that `length` is O(1).  The driver uses it
+for histories that buffer a full sequence-number cycle (65536 packets and more); it refines the
+list-level queue (`fastRefines` in Proofs/JitterBufferList.lean), hence behaves exactly like
+`listImpl` and, by `heapRefines`, like the heap-level queue. -/
+@[reducible] def fastImpl : QImpl where
+  Q := List Entry × Nat
+  empty := ([], 0)
+  length := fun q => q.2 % 65536
+  push := fun q p s => .ok (insertL q.1 (s, p), q.2 + 1)
+  find := fun q sq => findL q.1 sq
+  popAt := fun q sq =>
+    match popByL q.1 (fun e => e.1 == sq) with
+    | .ok (v, l') => .ok (v, (l', q.2 - 1))
+    | .err e => .err e
+    | .panic x => .panic x
+  popAtTs := fun q ts =>
+    match popByL q.1 (fun e => e.2.ts == ts) with
+    | .ok (v, l') => .ok (v, (l', q.2 - 1))
+    | .err e => .err e
+    | .panic x => .panic x
+  clear := fun _ => .ok ([], 0)
+
 /-! ### operations of the JitterBuffer as data, and histories -/
 
 inductive Op where
